@@ -12,6 +12,7 @@ from engine.twins import TwinSpec, project, first_difference, count_events
 from engine.util import own_nodes, calls_with_nodes, where, optional_numeric_params, truthiness_uses
 
 RULES = {
+    "R-18.7": "backend sockets take a RELATIVE timeout: every timeout argument handed to an async socket method (sendall/recv/sendto/recvfrom) in dns/asyncquery.py is `_timeout(<expiration>)` or a local computed from it - never the absolute expiration itself (a timestamp read as seconds never expires)",
     "R-18.6": "an expired deadline surfaces as dns.exception.Timeout on every backend: in the asyncio backend asyncio.wait_for is called only inside _maybe_wait_for (which translates asyncio.TimeoutError), and that translation is in place - a bare TimeoutError is an OSError, which callers read as 'the server is broken'",
     "R-18.5": "a deadline is an absolute expiration; the relative timeout handed to a blocking call inside a loop (`_timeout(expiration)` / `_remaining(expiration)`) is computed on every trip, never once before the loop - otherwise n fragments may each take the whole budget and the exchange outlives its deadline without a Timeout",
     "R-18.1": "an exchange function returns a message only on paths that are infeasible when q.is_response(r) is false (checked here or, for ignore_errors, in receive_udp with the query), or returns the result of another checked exchange; receive_udp tests the source address before parsing",
@@ -325,12 +326,31 @@ def run(model, rep, tier):
     okk = any(h.type is not None and "TimeoutError" in src(h.type) and any(isinstance(x, ast.Raise) and "dns.exception.Timeout" in src(x) for x in ast.walk(h)) for h in hs)
     rep.check(okk, "R-18.6", mw.qualname, where(mw, mw.node), "asyncio.TimeoutError is translated to dns.exception.Timeout", "_maybe_wait_for no longer translates asyncio.TimeoutError into dns.exception.Timeout", stmt="timeout-translation")
     rep.floor("R-18.6", n_wf, 1)
+    # ---------------------------------------------------------------- R-18.7
+    POS = {"sendall": 1, "recv": 1, "sendto": 2, "recvfrom": 1}
+    n_rel = 0
+    for f7 in sorted(model.all_functions(), key=lambda g: g.qualname):
+        if f7.module.name != "dns.asyncquery":
+            continue
+        rel = {t_.id for x in ast.walk(f7.node) if isinstance(x, ast.Assign) and isinstance(x.value, ast.Call) and src(x.value.func).split(".")[-1] in ("_timeout", "_remaining") for t_ in x.targets if isinstance(t_, ast.Name)}
+        for c in ast.walk(f7.node):
+            if not (isinstance(c, ast.Call) and isinstance(c.func, ast.Attribute) and c.func.attr in POS and len(c.args) > POS[c.func.attr]):
+                continue
+            a = c.args[POS[c.func.attr]]
+            n_rel += 1
+            okk = (isinstance(a, ast.Call) and src(a.func).split(".")[-1] in ("_timeout", "_remaining")) or (isinstance(a, ast.Name) and a.id in rel) or (isinstance(a, ast.Constant) and a.value is None)
+            rep.check(okk, "R-18.7", f7.qualname, where(f7, c), f"`{src(c.func)}` gets a relative timeout (`{src(a)[:30]}`)",
+                      f"`{src(c)[:70]}` hands `{src(a)}` to the socket as its timeout: that is an absolute expiration (seconds since the epoch), so a blocked write/read effectively never times out "
+                      "whatever the lifetime", stmt=f"relative-timeout {c.func.attr}")
+    rep.floor("R-18.7", n_rel, 6)
     rep.meta["explanation"] = (
         "Path-feasibility argument for 'nothing returned unchecked' (each returning path becomes infeasible when is_response is assumed false, under each value of ignore_errors), "
         "event projection and comparison of 11 sync/async twin pairs, and loop-shape rules for stream framing. Behaviour under every datagram sequence and stream split is NOT enumerated.")
 
 
 WITNESSES = [
+    {"id": "c18-async-xfr-sendall-absolute-expiration", "rule": "R-18.7", "file": "dns/asyncquery.py", "expect": "fires",
+     "old": "        await tcp_sock.sendall(tcpmsg, _timeout(expiration))", "new": "        await tcp_sock.sendall(tcpmsg, expiration)"},
     {"id": "c18-stream-recv-bare-wait-for", "rule": "R-18.6", "file": "dns/_asyncio_backend.py", "expect": "fires",
      "old": "        return await _maybe_wait_for(self.reader.read(size), timeout)", "new": "        return await asyncio.wait_for(self.reader.read(size), timeout)"},
     {"id": "c18-read-exactly-timeout-hoisted", "rule": "R-18.5", "file": "dns/asyncquery.py", "expect": "fires",
